@@ -119,6 +119,10 @@ def main():
             print("check %s --tier %s: rc=%d %s" % (pid, a.tier, rc, viol[:4]))
         outdir = os.path.join(VERIF, "seeded", name)
         os.makedirs(outdir, exist_ok=True)
+        oldp = os.path.join(outdir, "meta.json")
+        if os.path.exists(oldp):   # keep earlier verdicts: a change first missed and caught after strengthening
+            old = json.load(open(oldp))
+            meta["history"] = old.get("history", []) + [{"at_repo_head": old.get("at_repo_head"), "checks": old.get("checks")}]
         shutil.copy(patch, os.path.join(outdir, "patch.diff"))
         for s_ in a.demo_src:
             p_ = s_ if os.path.isabs(s_) else os.path.join(src, s_)
